@@ -26,4 +26,6 @@ Definition run (op : Z) (arg : V) : V :=
   if op =? 40 then run_lookup arg else
   if op =? 41 then run_tracks arg else
   if op =? 42 then run_ctor arg else
+  if op =? 43 then run_channels arg else
+  if op =? 44 then run_heap arg else
   fail EOther.
